@@ -177,7 +177,7 @@ func (s *Statser) Report(name string, value *uint64, tags gostatsd.Tags) {
 	s.Count(name, float64(atomic.SwapUint64(value, 0)), tags)
 }
 
-func (s *Statser) TimingMS(name string, ms float64, tags gostatsd.Tags)              {}
+func (s *Statser) TimingMS(name string, ms float64, tags gostatsd.Tags)            {}
 func (s *Statser) TimingDuration(name string, d time.Duration, tags gostatsd.Tags) {}
 func (s *Statser) NewTimer(name string, tags gostatsd.Tags) *stats.Timer {
 	return stats.NewNullStatser().NewTimer(name, tags)
@@ -234,7 +234,7 @@ func (c *CachedInstances) Evict(s gostatsd.Source) {
 	delete(c.Cache, s)
 	c.mu.Unlock()
 }
-func (c *CachedInstances) IpSink() chan<- gostatsd.Source            { return c.Sink }
+func (c *CachedInstances) IpSink() chan<- gostatsd.Source           { return c.Sink }
 func (c *CachedInstances) InfoSource() <-chan gostatsd.InstanceInfo { return c.Info }
 func (c *CachedInstances) EstimatedTags() int                       { return c.Tags }
 
